@@ -455,13 +455,16 @@ func (e *Engine) verifyFunc(fn *ssa.Function, spec *FuncSpec) (vc *VC, err error
 	// postconditions and frame are checked at every return separately (simpler queries than on the merged exit state)
 	for _, rt := range fr.rets {
 		env2 := &Env{vc: vc, vars: withNamedResults(env.vars, fn.Signature.Results(), rt.vals), cur: rt.st, old: fr.entry, pkg: fn.Pkg, results: rt.vals}
+		// each postcondition may use the ones listed before it (they are proved separately for the same state)
+		var proved []string
 		for i, en := range spec.Ensures {
 			g := vc.evalBool(env2, en.Expr)
 			lab := en.Label
 			if lab == "" {
 				lab = fmt.Sprint(i)
 			}
-			vc.oblige("ensures", lab, rt.pc, g, fn.Pos(), en.Src)
+			vc.oblige("ensures", lab, rt.pc, mkImp(mkAnd(proved...), g), fn.Pos(), en.Src)
+			proved = append(proved, vc.define("ens", SBool, g))
 		}
 		if spec.HasModifies || spec.Pure {
 			vc.frameObligations(fr, rt.st, rt.pc, targets)
